@@ -79,7 +79,7 @@ theorem hash160_ok (x : Bytes) (rest : List Bytes) (hg : 64 + ((ctx.ripemd160 x)
 theorem hash_ok (h : Bytes → Bytes) (x : Bytes) (rest : List Bytes)
     (hg : 64 + (x.length : Int) + ((h x).length : Int) ≤ rl) :
     doHash valueMem h (⟨(), ⟨P, pc, np, rl, 0, x :: rest, alt, d, e⟩⟩ : VS) =
-      .ok () ⟨(), ⟨P, pc, np, rl + 8 + x.length - (if (x.length : Int) < 64 then 64 else x.length) - (8 + (h x).length), 0,
+      .ok () ⟨(), ⟨P, pc, np, rl + 8 + x.length - ((max 64 x.length : Nat) : Int) - (8 + (h x).length), 0,
         h x :: rest, alt, d, e⟩⟩ := by
   by_cases hx : (x.length : Int) < 64
   · simp (disch := omega) [doHash, pop, itemCost, applyCost_ok, readItem, pushBytes, allocBytes, pushItem, hx]
